@@ -4,7 +4,7 @@
    compares with the committed pin (Properties/pins/C01.txt) so that a statement cannot be weakened
    silently; `Print Assumptions` lists the axioms it depends on (none are declared by this development). *)
 From Coq Require Import NArith List Bool String.
-From Octo Require Import Base.Bytes Crypto.Prims Lib.Framed Lib.WsFramed Model.Address Model.SsChunk Model.SsTcp Model.Trojan Model.Vmess Model.Relay Proofs.SsChunkRoundtrip Proofs.SsChunkCanon Proofs.SsTcpRoundtrip Proofs.TrojanFacts Proofs.VmessFacts Proofs.WsFramedFacts Proofs.RelayFacts Proofs.AddressFacts.
+From Octo Require Import Base.Bytes Crypto.Prims Lib.Framed Lib.WsFramed Model.Address Model.SsChunk Model.SsTcp Model.Trojan Model.Vmess Model.Relay Proofs.SsChunkRoundtrip Proofs.SsChunkCanon Proofs.SsTcpRoundtrip Proofs.TrojanFacts Proofs.VmessFacts Proofs.WsFramedFacts Proofs.RelayFacts Proofs.AddressFacts Proofs.VmessRoundtrip.
 Import ListNotations.
 Set Printing Width 200.
 
@@ -51,6 +51,13 @@ Definition C01_ws_transport := @ws_run_is_framed_run.
 Definition C01_address_exact := @s5_roundtrip.
 
 
+(* codec level, VMess request: address and first payload exactly *)
+Definition C01_vmess_request := @request_roundtrip_vmess.
+(* codec level, VMess response *)
+Definition C01_vmess_response := @response_roundtrip_vmess.
+
+Check @C01_vmess_request.
+Check @C01_vmess_response.
 Check @C01_pump_delivers_prefix.
 Check @C01_pump_exact.
 Check @C01_eof_delivers_all.
@@ -79,3 +86,5 @@ Print Assumptions C01_vmess_body.
 Print Assumptions C01_vmess_body_segmentation.
 Print Assumptions C01_ws_transport.
 Print Assumptions C01_address_exact.
+Print Assumptions C01_vmess_request.
+Print Assumptions C01_vmess_response.
